@@ -18,29 +18,27 @@ Open Scope string_scope.
 Open Scope Z_scope.
 
 (* ---------------------------------------------------------------------------------------------------------------
-   The property for permute, transpose, squeeze, unsqueeze, expand, view, reshape, flatten, unflatten, repeat,
-   repeat_interleave(dim): as stated it is FALSE of /repo (hence of the faithful model) *)
-Definition user_op (o : sop) : Prop := match o with OViewStar _ => False | _ => True end.
+   The property for permute, transpose, squeeze (dim / None), unsqueeze, expand (-1 included), view / reshape (-1
+   included), flatten, unflatten (-1 included), repeat, repeat_interleave(dim) -- /repo with fixes/C02/*.diff applied.
+   [in_domain] now lists only tensordict's DOCUMENTED narrower domain (rank-0 spellings of transpose / squeeze(dim) /
+   repeat_interleave(dim), flatten start < end, repeat with one count per batch dim): no recorded defect is excluded.
+   For every tree (any depth / width / feature shapes / nested batch longer than the parent's) and every argument torch
+   accepts (every dim incl. negative, every permutation, every legal target shape ...) *)
+Definition user_op (o : sop) : Prop :=
+  match o with OViewStar _ | OSqueezeDims _ | OSqueezeAllChild _ _ _ => False | _ => True end.
 
-Definition C02_one_result_ops_full_statement : Prop :=
-  forall t o bs', wf t -> user_op o -> torch_shape o (top_shape t) = Ok bs' ->
-  exists t', apply t o = Done t' /\ rel (top_shape t) bs' t t' /\ wf t'.
-
-Theorem C02_one_result_ops_refuted :
-  exists t o bs', wf t /\ user_op o /\ torch_shape o (top_shape t) = Ok bs' /\
-                  forall t', apply t o <> Done t'.
-Proof. exact full_statement_refuted. Qed.
-Print Assumptions C02_one_result_ops_refuted.
-
-(* ... and TRUE on the complement of the recorded defects, inside tensordict's documented domain ([in_domain] lists,
-   op by op, exactly what is excluded: D5/D5-view, C02-f, C02-g, C02-h, C02-m and the documented restrictions) —
-   for every tree (any depth / width / feature shapes / nested batch longer than the parent's), every argument
-   torch accepts (every dim incl. negative, every permutation, every legal target shape ...) *)
-Theorem C02_one_result_ops_partial : forall t o bs',
+Theorem C02_one_result_ops : forall t o bs',
   wf t -> in_domain o (top_shape t) -> torch_shape o (top_shape t) = Ok bs' ->
   exists t', apply t o = Done t' /\ rel (top_shape t) bs' t t' /\ wf t'.
 Proof. exact shape_ops_act_on_batch_dims. Qed.
-Print Assumptions C02_one_result_ops_partial.
+Print Assumptions C02_one_result_ops.
+
+(* outside the documented domain the statement does not hold: flatten(1, 1) is a no-op for torch, tensordict raises
+   ("The end dimension must be strictly greater than the start dim") -- a restriction, not a defect *)
+Theorem C02_one_result_ops_domain_needed :
+  exists t o bs', wf t /\ user_op o /\ torch_shape o (top_shape t) = Ok bs' /\ forall t', apply t o <> Done t'.
+Proof. exact full_statement_refuted. Qed.
+Print Assumptions C02_one_result_ops_domain_needed.
 
 (* in particular: the result's batch size is torch's shape, and the key set is preserved at every level *)
 Theorem C02_batch_size_and_keys : forall t o bs',
@@ -58,13 +56,13 @@ Theorem C02_unbind : forall t d shapes,
 Proof. exact unbind_acts_on_batch_dims. Qed.
 Print Assumptions C02_unbind.
 
-(* split(list): the full statement (legal <-> accepted) is refuted by D4 below; on legal non-empty lists: *)
-Theorem C02_split_list_partial : forall t l d shapes,
+(* split(list) for every list of sizes torch accepts (tensordict documents: not the empty list) *)
+Theorem C02_split_list : forall t l d shapes,
   wf t -> is_node t -> l <> [] -> t_split_list (top_shape t) l d = Ok shapes ->
   exists ts, td_split t (inr l) d = Done ts /\
              Forall2 (fun s t' => top_shape t' = s /\ rel (top_shape t) s t t' /\ wf t') shapes ts.
 Proof. exact split_list_acts_on_batch_dims. Qed.
-Print Assumptions C02_split_list_partial.
+Print Assumptions C02_split_list.
 
 Theorem C02_split_int : forall t k d shapes,
   wf t -> is_node t -> t_split_int (top_shape t) k d = Ok shapes ->
@@ -73,19 +71,13 @@ Theorem C02_split_int : forall t k d shapes,
 Proof. exact split_int_acts_on_batch_dims. Qed.
 Print Assumptions C02_split_int.
 
-(* chunk: on a dim of positive size (size 0 is C02-e: one chunk instead of torch's `chunks`) *)
-Theorem C02_chunk_partial : forall t c d shapes i,
-  wf t -> is_node t -> wrap_dim d (List.length (top_shape t)) = Ok i -> 0 < nthZ (top_shape t) i ->
-  t_chunk (top_shape t) c d = Ok shapes ->
+(* chunk: every dim, every number of chunks torch accepts, a dim of size 0 included (fixes/C02/C02-e) *)
+Theorem C02_chunk : forall t c d shapes,
+  wf t -> is_node t -> t_chunk (top_shape t) c d = Ok shapes ->
   exists ts, td_chunk t c d = Done ts /\
              Forall2 (fun s t' => top_shape t' = s /\ rel (top_shape t) s t t' /\ wf t') shapes ts.
 Proof. exact chunk_acts_on_batch_dims. Qed.
-Print Assumptions C02_chunk_partial.
-
-Theorem C02_chunk_refuted :
-  t_chunk [0; 2] 3 0 = Ok [[0; 2]; [0; 2]; [0; 2]] /\ td_chunk (td1 [0; 2] []) 3 0 = Done [td1 [0; 2] []].
-Proof. exact C02e_chunk_empty_dim. Qed.
-Print Assumptions C02_chunk_refuted.
+Print Assumptions C02_chunk.
 
 (* torch.stack over 1 + |others| operands with the same keys and shapes (any number of operands, any depth) *)
 Theorem C02_stack : forall t others d bs',
@@ -120,10 +112,11 @@ Proof. exact masked_select_acts_on_batch_dims. Qed.
 Print Assumptions C02_masked_select.
 
 (* ---------------------------------------------------------------------------------------------------------------
-   Illegal arguments.  Full statement: whatever torch rejects for the batch shape, tensordict rejects.  It is refuted
-   (C02_D4_*, C02_D22_*, C02_S5_* above: split(list), stack, flatten; also cat, repeat_interleave, gather and every
-   operation on a tensordict without entries, Proofs/C02_RefuteP.v); it holds for the operations whose guards tensordict
-   checks itself, for every tree (even without entries): *)
+   Illegal arguments.  Full statement: whatever torch rejects for the batch shape, tensordict rejects.  After
+   fixes/C02 it holds, for every tree (even without entries), for transpose, unsqueeze, squeeze(dim), permute (with one
+   dim per batch dim), flatten, split(int) and stack -- the operations whose guards tensordict checks itself.
+   It remains false where only the per-entry torch calls validate the arguments: on a tensordict without entries
+   (C02-l, same root as C03's D3) and for split(list) with sizes summing beyond the dim (D4 reduced: truncated). *)
 Definition C02_illegal_rejected_full_statement : Prop :=
   forall bs nm ents o, user_op o -> torch_shape o bs = Reject -> exists k, apply (Node bs nm ents) o = Raised k.
 
@@ -132,10 +125,29 @@ Theorem C02_illegal_rejected_partial : forall bs nm ents o,
 Proof. exact illegal_is_rejected. Qed.
 Print Assumptions C02_illegal_rejected_partial.
 
+Theorem C02_split_int_illegal_rejected : forall bs nm ents k d,
+  t_split_int bs k d = Reject -> exists e, td_split (Node bs nm ents) (inl k) d = Raised e.
+Proof. exact split_int_illegal_rejected. Qed.
+Print Assumptions C02_split_int_illegal_rejected.
+
+Theorem C02_stack_illegal_rejected : forall bs nm ents others d,
+  t_stack (map top_shape (Node bs nm ents :: others)) d = Reject ->
+  exists e, td_stack (Node bs nm ents :: others) d = Raised e.
+Proof. exact stack_illegal_rejected. Qed.
+Print Assumptions C02_stack_illegal_rejected.
+
 Theorem C02_illegal_rejected_refuted :
   t_view [3; 3] [3] = Reject /\ apply (Node [3; 3] None []) (OView [3]) = Done (Node [3] None []).
 Proof. exact C02l_leafless_accepts. Qed.
 Print Assumptions C02_illegal_rejected_refuted.
+
+Theorem C02_D4_split_list_truncates_refuted :
+  t_split_list [3] [5] 0 = Reject /\
+  td_split (td1 [3] [2]) (inr [5]) 0 = Done [td1 [3] [2]] /\
+  t_split_list [3] [2; 2] 0 = Reject /\
+  td_split (td1 [3] []) (inr [2; 2]) 0 = Done [td1 [2] []; td1 [1] []].
+Proof. exact D4_split_list_truncates. Qed.
+Print Assumptions C02_D4_split_list_truncates_refuted.
 
 (* ---------------------------------------------------------------------------------------------------------------
    Dimension names travel with their dimensions: the result's names are the input's names read through the same
@@ -181,48 +193,55 @@ Theorem C02_names_flatten : forall bs nm ents a b i j t',
 Proof. exact names_flatten. Qed.
 Print Assumptions C02_names_flatten.
 
-(* squeeze() (dim=None): names of nested nodes are erased (C02-a): the statement "names travel" is refuted there *)
-Theorem C02_names_squeeze_all_refuted :
+(* ---------------------------------------------------------------------------------------------------------------
+   The former counterexamples (the repro of each repaired finding, fixes/C02/fixed.json) satisfy the property in the
+   model of the repaired code *)
+Example C02_D4_repaired :
+  td_split (td1 [3] []) (inr [4; -1]) 0 = Raised ERuntime /\
+  td_split (td1 [2] []) (inl 0) 0 = Raised ERuntime /\ td_split (td1 [2] []) (inl (-1)) 0 = Raised ERuntime /\
+  cohb (td1 [3] [2]) = true.
+Proof. exact D4_repaired. Qed.
+Example C02_D5_repaired :
+  t_squeeze_all [1; 1] = Ok [] /\
+  apply (named [1; 1] [Some "x"; Some "y"] [2]) (OSqueeze None) = Done (Node [] None [("a", Leaf [2])]) /\
+  apply (td1 [1; 1] []) (OSqueeze None) = Done (Node [] None [("a", Leaf [])]).
+Proof. exact D5_repaired. Qed.
+Example C02_a_repaired :
   apply (Node [1; 2] (Some [Some "x"; Some "y"]) [("n", Node [1; 2] (Some [Some "x"; Some "y"]) [("x", Leaf [1; 2])])])
         (OSqueeze None)
-  = Done (Node [2] (Some [Some "y"]) [("n", Node [2] None [("x", Leaf [2])])]).
-Proof. exact C02a_squeeze_all_nested_names. Qed.
-Print Assumptions C02_names_squeeze_all_refuted.
-
-(* ---------------------------------------------------------------------------------------------------------------
-   The recorded defects are facts about the model (witness = the repro of findings.d/C02.json) *)
-Theorem C02_D4_split_list_refuted :
-  t_split_list [3] [5] 0 = Reject /\
-  td_split (td1 [3] [2]) (inr [5]) 0 = Done [Node [5] None [("a", Leaf [3; 2])]] /\
-  cohb (Node [5] None [("a", Leaf [3; 2])]) = false.
-Proof. exact D4_split_list_accepts_illegal. Qed.
-Print Assumptions C02_D4_split_list_refuted.
-
-Theorem C02_D4_split_terminates_refuted :
-  t_split_int [2] 0 0 = Reject /\ td_split (td1 [2] []) (inl 0) 0 = Diverges /\
-  t_split_int [2] (-1) 0 = Reject /\ td_split (td1 [2] []) (inl (-1)) 0 = Diverges.
-Proof. exact D4_split_zero_diverges. Qed.
-Print Assumptions C02_D4_split_terminates_refuted.
-
-Theorem C02_D5_squeeze_refuted :
-  t_squeeze_all [1; 1] = Ok [] /\
-  apply (named [1; 1] [Some "x"; Some "y"] [2]) (OSqueeze None) = Raised EValue.
-Proof. exact D5_squeeze_all_named_raises. Qed.
-Print Assumptions C02_D5_squeeze_refuted.
-
-Theorem C02_D22_stack_reject_refuted :
-  t_stack [[3]; [3]] 2 = Reject /\
-  td_stack [td1 [3] [4]; td1 [3] [4]] 2 = Done (Node [3; 2] None [("a", Leaf [3; 4; 2])]) /\
-  cohb (Node [3; 2] None [("a", Leaf [3; 4; 2])]) = false.
-Proof. exact D22_stack_dim_past_rank. Qed.
-Print Assumptions C02_D22_stack_reject_refuted.
-
-Theorem C02_S5_flatten_reject_refuted :
-  t_flatten [2] 0 1 = Reject /\
-  apply (td1 [2] [3; 4]) (OFlatten 0 1) = Done (Node [2] None [("a", Leaf [6; 4])]) /\
-  cohb (Node [2] None [("a", Leaf [6; 4])]) = false.
-Proof. exact S5_flatten_past_batch_dims. Qed.
-Print Assumptions C02_S5_flatten_reject_refuted.
+  = Done (Node [2] (Some [Some "y"]) [("n", Node [2] (Some [Some "y"]) [("x", Leaf [2])])]).
+Proof. exact C02a_repaired. Qed.
+Example C02_D22_b_c_repaired :
+  t_stack [[3]; [3]] 2 = Reject /\ td_stack [td1 [3] [4]; td1 [3] [4]] 2 = Raised EIndex /\
+  t_stack [[3; 4]; [3; 4]] (-4) = Reject /\ td_stack [td1 [3; 4] []; td1 [3; 4] []] (-4) = Raised EIndex /\
+  t_cat [[3; 4]; [3; 4]] (-3) = Reject /\ td_cat [td1 [3; 4] []; td1 [3; 4] []] (-3) = Raised ERuntime.
+Proof. exact D22_C02b_C02c_repaired. Qed.
+Example C02_S5_d_repaired :
+  t_flatten [2] 0 1 = Reject /\ apply (td1 [2] [3; 4]) (OFlatten 0 1) = Raised EIndex /\
+  t_repeat_interleave [2] 2 (Some 1) = Reject /\ td_repeat_interleave (td1 [2] [3]) 2 (Some 1) = Raised EValue.
+Proof. exact S5_C02d_repaired. Qed.
+Example C02_e_repaired :
+  t_chunk [0; 2] 3 0 = Ok [[0; 2]; [0; 2]; [0; 2]] /\
+  td_chunk (td1 [0; 2] []) 3 0 = Done [td1 [0; 2] []; td1 [0; 2] []; td1 [0; 2] []].
+Proof. exact C02e_repaired. Qed.
+Example C02_f_g_repaired :
+  t_expand [1; 2] [-1; 2] = Ok [1; 2] /\ apply (td1 [1; 2] []) (OExpand [-1; 2]) = Done (td1 [1; 2] []) /\
+  t_unflatten [6] 0 [2; -1] = Ok [2; 3] /\ apply (td1 [6] []) (OUnflatten 0 [2; -1]) = Done (td1 [2; 3] []).
+Proof. exact C02f_C02g_repaired. Qed.
+Example C02_h_repaired :
+  t_view [3; 0] [3; -1] = Ok [3; 0] /\ apply (td1 [3; 0] []) (OView [3; -1]) = Done (td1 [3; 0] []) /\
+  apply (Node [2; 0] None []) (OReshape [-1]) = Done (Node [0] None []).
+Proof. exact C02h_repaired. Qed.
+Example C02_i_j_repaired :
+  t_gather [2; 2; 2] (-1) [2; 2] = Reject /\ gather_at (td1 [2; 2; 2] []) (-1) [2; 2] = Raised ERuntime /\
+  t_gather [3; 4] 1 [1; 2] = Ok [1; 2] /\ gather_at (td1 [3; 4] []) 1 [1; 2] = Done (td1 [1; 2] []).
+Proof. exact C02ij_repaired. Qed.
+Example C02_k_repaired :
+  apply (named [2; 3; 4] [Some "x"; Some "y"; Some "z"] []) (OPermute [1; 0])
+  = Done (Node [3; 2; 4] (Some [Some "y"; Some "x"; Some "z"]) [("a", Leaf [3; 2; 4])]).
+Proof. exact C02k_repaired. Qed.
+Example C02_m_repaired : t_repeat [] [] = Ok [] /\ apply (td1 [] []) (ORepeat []) = Done (td1 [] []).
+Proof. exact C02m_repaired. Qed.
 
 (* ---------------------------------------------------------------------------------------------------------------
    Non-vacuity: a three-level tree with a nested batch longer than the parent's, a size-0-free and a size-1 dim,
